@@ -116,6 +116,7 @@ def check_property(pid, tier, seed, extra=None):
 
     # 1. known findings: does each listed witness still reproduce?
     active_excl = {}
+    whole_known = set()
     for f in known:
         hk = f["harness"]
         targets = [h for h in hs if fnmatch.fnmatch(h.key, hk)]
@@ -127,7 +128,11 @@ def check_property(pid, tier, seed, extra=None):
         if rr.get("reproduced"):
             known_lines.append("KNOWN-FINDING: property=%s %s [%s]" % (pid, f["what"], f["key"]))
             for t in targets:
-                active_excl.setdefault(t.key, []).append(f["exclude_pre"])
+                if f.get("exclude_pre") is None:
+                    # the finding IS the harness (every input of it fails): the harness is reported through its witness only
+                    whole_known.add(t.key)
+                else:
+                    active_excl.setdefault(t.key, []).append(f["exclude_pre"])
         else:
             stale.append(f["key"])
 
@@ -143,6 +148,7 @@ def check_property(pid, tier, seed, extra=None):
         r["key"] = h.key
         return h.key, r
 
+    hs = [h for h in hs if h.key not in whole_known]
     order = sorted(hs, key=lambda h: -h.timeout)
     with cf.ThreadPoolExecutor(max_workers=jobs) as ex:
         for k, r in ex.map(job, order):
